@@ -171,7 +171,9 @@ def reader_rule(ctx, rep, half, name, b, expected_reads, helper_names, allow_sec
             for s_ in body.succs(x):
                 if s_ not in cfg.reachable(body, start=cont):
                     work.append(s_)
-        good = calls == [FROM_RES]
+        # `?` plumbing only: the error is handed up - possibly through the `?` of an extracted
+        # helper and then the caller's own (branch of the helper's known Err, from_residual again)
+        good = bool(calls) and calls[0] == FROM_RES and len(calls) <= 5 and all(c == FROM_RES or c.endswith(" as std::ops::Try>::branch") for c in calls)
         rep.check(good, "reader", fn, "read%d-error-propagated" % k, "Err(e) => return Err(e.into()) with nothing else executed", "on a failed read the function executes %s before returning" % calls, body.loc(brk))
     # (iv) success: the helper receives exactly the bytes read
     last = se.term_info[reads[0]]
